@@ -6,6 +6,7 @@ package main
 import (
 	"fmt"
 	"regexp"
+	"regexp/syntax"
 	"go/token"
 	"go/types"
 	"strings"
@@ -532,6 +533,11 @@ func (x *Exec) regexpModel(st *State, re *RegexpV, method string, subject *Term,
 		} else {
 			st.assume(App("str.contains", "Bool", subject, r))
 		}
+		if c := firstLiteralOf(re.pat); c != "" {
+			// read off the pattern's syntax tree: it begins (after the anchor) with a literal character,
+			// so whatever it finds begins with that character
+			st.assume(Or(Eq(r, StrT("")), App("str.prefixof", "Bool", StrT(c), r)))
+		}
 		return r
 	default: // FindStringSubmatch
 		ss := x.w.sortOf(sig.Results().At(0).Type())
@@ -545,6 +551,27 @@ func (x *Exec) regexpModel(st *State, re *RegexpV, method string, subject *Term,
 		}
 		return r
 	}
+}
+
+// firstLiteralOf: the ASCII character every non-empty match of an anchored pattern begins with, if
+// the pattern's syntax tree (regexp/syntax) is a concatenation that starts, after ^, with a literal.
+func firstLiteralOf(pat string) string {
+	re, err := syntax.Parse(pat, syntax.Perl)
+	if err != nil {
+		return ""
+	}
+	re = re.Simplify()
+	if re.Op != syntax.OpConcat || len(re.Sub) < 2 {
+		return ""
+	}
+	if re.Sub[0].Op != syntax.OpBeginText && re.Sub[0].Op != syntax.OpBeginLine {
+		return ""
+	}
+	lit := re.Sub[1]
+	if lit.Op != syntax.OpLiteral || len(lit.Rune) == 0 || lit.Rune[0] >= 128 || lit.Flags&syntax.FoldCase != 0 {
+		return ""
+	}
+	return string(rune(lit.Rune[0]))
 }
 
 func hashString(s string) uint32 {
